@@ -141,9 +141,10 @@ def rebased_alias_ports(c0, c1, t):
 
 
 def case_generated(run, ad, style, t, widened=(), rp=None):
-    """ad: the design of gen_hier; widened: [(design with vector-net header aliases, names of the modules changed), ...].  The first
-    widened design the reader takes for what its text says is the one that is run; when there is none the plain design is."""
-    for cand, alias_defs in list(widened) + [(ad, ())]:
+    """ad: the design of gen_hier (None: no fall-back); widened: [(design with vector-net header aliases, names of the modules
+    changed), ...].  The first widened design the reader takes for what its text says is the one that is run; when there is none
+    the plain design is."""
+    for cand, alias_defs in list(widened) + ([(ad, ())] if ad is not None else []):
         text, plan = V.render(cand, style)
         path = run.path('.v')
         with open(path, 'w') as f:
@@ -211,8 +212,9 @@ def main():
         if rp.get('file'):
             run.case(R.jhash(rp['file'], rp['transform']), True, None, lambda: case_file(run, rp['file'], rp['transform']), rp, limit=400)
         else:
-            w = [(rp['ad'], rp['alias_defs'])] if rp.get('alias_defs') else []
-            run.case(R.jhash(rp['ad'], rp['style'], rp['transform']), True, None, lambda: case_generated(run, rp['ad'], rp['style'], rp['transform'], w), rp)
+            # a widened design is replayed under the same condition it ran under (read as written), a plain one as it is
+            w, plain = ([(rp['ad'], rp['alias_defs'])], None) if rp.get('alias_defs') else ([], rp['ad'])
+            run.case(R.jhash(rp['ad'], rp['style'], rp['transform']), True, None, lambda: case_generated(run, plain, rp['style'], rp['transform'], w), rp)
         return run.finish()
     for seed in cfg.get('seeds', []):
         ad = R.gen_hier(seed, 'verilog')
